@@ -1654,6 +1654,18 @@ class HTTP11ClientProtocol(Protocol):
 
     _finishResponse_TRANSMITTING = _finishResponse_WAITING
 
+    def _finishResponse_ABORTING(self, rest: bytes) -> None:
+        """
+        The response ended after L{abort} was called: either its last bytes
+        arrived before the transport reported the close, or the parser is
+        being told about the loss of the connection by
+        L{_connectionLost_ABORTING} (which is how a close-delimited body
+        ends).  Nothing more can be received, so let the parser finish the
+        response now; this does nothing if the parser is already being
+        disconnected.
+        """
+        self._disconnectParser(Failure._withoutTraceback(ConnectionDone("synthetic!")))
+
     def _disconnectParser(self, reason):
         """
         If there is still a parser, call its C{connectionLost} method with the
